@@ -7,7 +7,9 @@
 //!   ["p"]                      poll_next is called
 //!   ["s", id, gslot, grslot]   the item's closure was called with its FutureQueueContext
 //!                              (grslot = -1 when the context has no group slot)
-//!   ["c", id]                  poll_next returned this item's output
+//!   ["c", id]                  the item's future resolved (inside the poll that pops it, or at
+//!                              the end of the previous poll when the stream peeked at it)
+//!   ["o", id]                  poll_next returned this item's output
 //!   ["w", cur]                 current_global_weight() after the stream went Pending
 //!   ["e"]                      poll_next returned None
 //!   ["x", msg]                 poll_next panicked (debug_assert / unknown group)
@@ -61,7 +63,7 @@ fn drive<S: Stream<Item = u64>>(
         match r {
             Ok(Poll::Ready(Some(id))) => {
                 let mut s = shared.borrow_mut();
-                s.log.push(json!(["c", id]));
+                s.log.push(json!(["o", id]));
                 s.running.retain(|x| *x != id);
             }
             Ok(Poll::Ready(None)) => {
@@ -156,8 +158,11 @@ fn run_queue(case: &Value) -> Value {
                 ]));
                 s.running.push(id);
             }
+            let sh = sh.clone();
             async move {
                 let _ = rx.await;
+                // the "test" ends here, inside the poll that pops it
+                sh.borrow_mut().log.push(json!(["c", id]));
                 id
             }
         };
